@@ -277,9 +277,7 @@ class CoordinateList(CompressionFormat):
     # get size of representation
     def getSize(self): 
         # self.printFiber()
-        if self.next_fmt != None and self.next_fmt.encodeUpperPayload():
-            assert(len(self.payloads) > 0)
-
+        # Note: an empty fiber (no coordinates) stores nothing at all
         size = len(self.coords) + len(self.occupancies)
         # Don't need to store occupancies if lower level is U
         # if not isinstance(self.payloads[0], CompressionFormat):
